@@ -1,6 +1,7 @@
 package main
 
 import (
+	"strings"
 	"encoding/json"
 	"fmt"
 	"math"
@@ -386,6 +387,59 @@ func xcircle(seed uint64) string {
 	return "ok"
 }
 
+func fhex(f float64) string { return fmt.Sprintf("%016x", math.Float64bits(f)) }
+
+// gfn Name <arg bits>... : the Go function on the same IEEE inputs, results as bit patterns
+func gfn(toks []string) string {
+	var a []float64
+	for _, t := range toks[2:] {
+		u, err := strconv.ParseUint(t, 16, 64)
+		if err != nil {
+			return "bad-op"
+		}
+		a = append(a, math.Float64frombits(u))
+	}
+	out := func(vs ...float64) string {
+		var s []string
+		for _, v := range vs {
+			s = append(s, fhex(v))
+		}
+		return strings.Join(s, " ")
+	}
+	b := func(x bool) float64 {
+		if x {
+			return 1
+		}
+		return 0
+	}
+	switch toks[1] {
+	case "Haversine":
+		return out(geo.Haversine(a[0], a[1], a[2], a[3]))
+	case "NormalizeDistance":
+		return out(geo.NormalizeDistance(a[0]))
+	case "DistanceToHaversine":
+		return out(geo.DistanceToHaversine(a[0]))
+	case "DistanceFromHaversine":
+		return out(geo.DistanceFromHaversine(a[0]))
+	case "DistanceTo":
+		return out(geo.DistanceTo(a[0], a[1], a[2], a[3]))
+	case "DestinationPoint":
+		x, y := geo.DestinationPoint(a[0], a[1], a[2], a[3])
+		return out(x, y)
+	case "BearingTo":
+		return out(geo.BearingTo(a[0], a[1], a[2], a[3]))
+	case "RectFromCenter":
+		p, q, r, s := geo.RectFromCenter(a[0], a[1], a[2])
+		return out(p, q, r, s)
+	case "circleContainsPoint":
+		// (threshold, cx, cy, px, py): the comparison of Circle.containsPoint
+		return out(b(geo.Haversine(a[4], a[3], a[2], a[1]) <= a[0]))
+	case "newCircleHaversine":
+		return out(geojson.NewCircle(geometry.Point{}, a[0], 12).Haversine())
+	}
+	return "bad-op"
+}
+
 func geoOp(toks []string) (string, bool) {
 	seed := uint64(0)
 	if len(toks) > 1 {
@@ -406,6 +460,8 @@ func geoOp(toks []string) (string, bool) {
 		return xcircle(seed), true
 	case "xconc":
 		return xconc(seed), true
+	case "gfn":
+		return gfn(toks), true
 	}
 	return "", false
 }
@@ -415,8 +471,50 @@ func genGeo(suite string, o *out, r *rng, thorough bool) bool {
 	if thorough {
 		n = 1000000
 	}
+	gf := func(name string, vs ...float64) {
+		var hs []string
+		for _, v := range vs {
+			hs = append(hs, fhex(v))
+		}
+		o.op("gfn %s %s", name, strings.Join(hs, " "))
+	}
+	// numeric correspondence of the formulas (Lean Float vs Go): libm differences of a few ulps are
+	// amplified without bound next to the poles (asin/acos near 1), so these ops stay 0.1° away;
+	// the poles are exercised by the implementation-side oracles (xgeo13/14/15)
+	randLL := func() (float64, float64) {
+		la, lo := randLatLon(r)
+		if la > 89.9 {
+			la = 89.9
+		}
+		if la < -89.9 {
+			la = -89.9
+		}
+		return la, lo
+	}
+	rad := func() float64 {
+		m := randRadius(r)
+		if m > 0.25 && m < 0.32 { // the tiny-radius branch boundary of RectFromCenter (0.285 m): libm ulps may flip it
+			m = 0.5
+		}
+		return m
+	}
 	switch suite {
 	case "c13":
+		for i := 0; i < n/20; i++ {
+			lat, lon := randLL()
+			lat2, lon2 := randLL()
+			m := rad()
+			gf("newCircleHaversine", m)
+			if m > 1 { // away from the decision boundary (libm ulps): probes at 0.9 r and 1.1 r
+				for _, f := range []float64{0.9, 1.1} {
+					if m*f < math.Pi*earthR {
+						plat, plon := geo.DestinationPoint(lat, lon, m*f, float64(r.intn(360)))
+						gf("circleContainsPoint", geo.DistanceToHaversine(geo.NormalizeDistance(m)), lon, lat, plon, plat)
+					}
+				}
+			}
+			gf("Haversine", lat, lon, lat2, lon2)
+		}
 		for i := 0; i < n/10; i++ {
 			o.op("xgeo13 %d", r.next()%(1<<62))
 		}
@@ -428,10 +526,30 @@ func genGeo(suite string, o *out, r *rng, thorough bool) bool {
 		}
 		o.op("xcirclepoly -3 1")
 	case "c14":
+		for i := 0; i < n/8; i++ {
+			lat, lon := randLL()
+			m := rad()
+			if m < 10 { // cos(m/R) is within 1e-12 of 1: the tangent-longitude formula amplifies libm ulps
+				m += 10
+			}
+			gf("RectFromCenter", lat, lon, m)
+		}
 		for i := 0; i < n/4; i++ {
 			o.op("xgeo14 %d", r.next()%(1<<62))
 		}
 	case "c15":
+		for i := 0; i < n/8; i++ {
+			lat, lon := randLL()
+			lat2, lon2 := randLL()
+			m := rad()
+			gf("Haversine", lat, lon, lat2, lon2)
+			gf("DistanceTo", lat, lon, lat2, lon2)
+			gf("DestinationPoint", lat, lon, m, float64(r.intn(3600000))/10000)
+			gf("BearingTo", lat, lon, lat2, lon2)
+			gf("NormalizeDistance", m*float64(r.rangeI(1, 40)))
+			gf("DistanceToHaversine", m)
+			gf("DistanceFromHaversine", float64(r.intn(1000001))/1000000)
+		}
 		for i := 0; i < n; i++ {
 			o.op("xgeo15 %d", r.next()%(1<<62))
 		}
